@@ -99,7 +99,27 @@ def self_test(dec, res, name, assumptions, mutated_goal):
         res.inconclusive.append("%s: mutated-oracle self-test returned %s (expected sat) %s" % (name, v, note))
 
 
-def hunt_multi(dec, res, prop, name, assumptions, clauses, shapes, inputs, replay_fn, role_of, max_rounds=12, sample=None):
+def decide_cubed(dec, qname, assumptions, goal, cubes, second=None, closed=None):
+    """decide `assumptions => goal` by case split: one query per cube (the cubes
+    must cover the assumptions -- checked by the caller's `cover` obligation);
+    sat as soon as one cube is sat, unsat iff every cube is unsat.
+    `closed`: indices of cubes already proven unsat for a STRONGER goal (the goal of a later
+    round only adds disjuncts, so those cubes stay unsat and are not re-queried)."""
+    if not cubes:
+        return dec.decide(qname, assumptions, goal, second=second)
+    for i, cube in enumerate(cubes):
+        if closed is not None and i in closed:
+            continue
+        v, model, note = dec.decide("%s.c%d" % (qname, i), list(assumptions) + [cube], goal, second=second)
+        if v != "unsat":
+            return v, model, note
+        if closed is not None:
+            closed.add(i)
+    return "unsat", {}, ""
+
+
+def hunt_multi(dec, res, prop, name, assumptions, clauses, shapes, inputs, replay_fn, role_of, max_rounds=12, sample=None,
+               cubes=None):
     """Like `hunt`, for several oracle clauses decided by ONE query per round.
 
     clauses: list of (clause name, goal term) in priority order (a later clause
@@ -120,9 +140,11 @@ def hunt_multi(dec, res, prop, name, assumptions, clauses, shapes, inputs, repla
     roles = []
     k = 0
     n_other = 0
+    closed = set()
     while True:
         goal = And(*[Or(t, *excl[c]) for c, t in clauses])
-        v, model, note = dec.decide("%s#%d" % (name, k), list(assumptions), goal, second=name.split("@")[0])
+        v, model, note = decide_cubed(dec, "%s#%d" % (name, k), list(assumptions), goal, cubes, second=name.split("@")[0],
+                                      closed=closed)
         k += 1
         if v == "unsat":
             res.discharged += len(clauses)
